@@ -131,6 +131,12 @@ def signature(d, mir=None):
     def m_(a):
         return mir.get((d.year, a), a)
     combos = {tuple(sorted({_norm(m_(a)) for a in c})) for c in combos}
+    # a yes/no line can be written as one expression (`a > 0 or flag`) or as early returns (`if a > 0: return True; return flag`):
+    # which atoms sit in the returned expression and which in the tests before it is a matter of style, so for such lines the
+    # combinations are not compared (what the line reads, whether it refuses and how it walks the copies still are)
+    if getattr(getattr(d, 'rec', None), 'cls', None) is not None and d.rec.cls.name == 'BooleanField':
+        combos = set()
+        gated = set()
     reads = sorted({_norm(m_(r.atom)) for r in d.reads() if r.atom})
     gates = tuple(sorted((_norm(m_(a)), tuple((_norm(t), pol) for t, pol in u)) for a, u in gated if u))
     return (tuple(sorted(combos)), refuses, tuple(reads), gates, tuple(sorted(special)), tuple(sorted({(_norm(m_(t)), pol) for t, pol in when})))
